@@ -264,6 +264,9 @@ func (m *ImplCmd) execCmd(tk []string) (obs string) {
 			textOut = ""
 		case "bad":
 			textOut = filepath.Join(m.root, "no-such-dir", "out.txt")
+		case "full":
+			// opens, then every write beyond the buffer fails (ENOSPC)
+			textOut = "/dev/full"
 		}
 	}
 	archive := kvInt(tk, "archive")
@@ -417,8 +420,8 @@ func (m *ImplCmd) execCmd(tk []string) (obs string) {
 			}
 		}
 	}
-	if textOut == "" {
-		// no text output was requested: only the outcome is observable
+	if textOut == "" || textOut == "/dev/full" {
+		// no text output was requested (or none can be read back): only the outcome is observable
 		body = "(no-output)"
 	}
 	return fmt.Sprintf("%s %s%s @now=%d", cls, body, m.lockProbe(), now)
